@@ -933,7 +933,15 @@ def check_mask(c):
     if name == "ncc_loss":
         # the axioms of NCC also hold for its masked form: 0 on identical images, invariant under a*x+b
         same = _call(name, x, x.clone(), mask=m, red="none")
-        if _maxabs(same) > 5e-4:
+        # items whose masked samples are (nearly) constant have zero variance: a^2/(b c + eps) = 0/eps, the loss is 1 by the
+        # epsilon law (as for an unmasked constant image) - outside "identical, non-constant" (hypothesis of
+        # C16_ncc_masked_identical)
+        w = me.double().reshape(shape[0], -1)
+        xf = x.double().reshape(shape[0], -1)
+        mean_w = (xf * w).sum(1, keepdim=True) / w.sum(1, keepdim=True)
+        var_w = (((xf - mean_w) * w) ** 2).sum(1)
+        ok = var_w > 1e-4
+        if ok.any() and _maxabs(same.flatten()[ok]) > 5e-4:
             return ("C16:ncc_loss:identical-masked", f"ncc_loss(x, x, mask) = {same.flatten()[:4].tolist()}")
         xa = _tensor(r, shape, "dyadic", True)
         a, b = r.choice([-2.0, 0.5, 3.0]), r.choice([-1.0, 0.75, 4.0])
